@@ -402,10 +402,17 @@ def r4_set_iteration(ctx):
         return k if k in ('int', 'empty') else 'unknown'
       if isinstance(e, ast.Name) and (f.module.short, e.id) in module_sets:
         return 'unknown'
-      if isinstance(e, ast.BinOp) and isinstance(e.op, (ast.Sub, ast.BitOr, ast.BitAnd)):
-        l = set_kind(e.left)
+      if isinstance(e, ast.BinOp) and isinstance(e.op, (ast.Sub, ast.BitOr, ast.BitAnd, ast.BitXor)):
+        def view(x):
+          return isinstance(x, ast.Call) and isinstance(x.func, ast.Attribute) and x.func.attr in ('keys', 'items') and not x.args
+        l, r = set_kind(e.left), set_kind(e.right)
+        if view(e.left) or view(e.right):
+          # set algebra on a dict view yields a real set: its order is hash order, the key type is not known to be int
+          return 'unknown'
         if l is not None:
-          return l
+          return l if (r is None or r == l or isinstance(e.op, (ast.Sub, ast.BitAnd))) else 'unknown'
+        if r is not None and isinstance(e.op, (ast.BitOr, ast.BitXor)):
+          return r
       if isinstance(e, ast.Subscript):
         # element of an annotated list[list[set[int]]] parameter
         base = e
